@@ -15,22 +15,14 @@ structure EnvOK (env : NsEnv) : Prop where
   xmlNs : env.saxXmlNs = xmlNsUri
   xmlEnum : dget env.enum xmlNsUri = some xmlPrefix
   entries : ∀ e ∈ env.enum, enumEntryOK e = true
-  inj : ∀ e1 ∈ env.enum, ∀ e2 ∈ env.enum, e1.2 = e2.2 → e1.1 = e2.1
 
 theorem envOK_sound (env : NsEnv) (h : envOK env = true) : EnvOK env := by
-  simp only [envOK, Bool.and_eq_true, beq_iff_eq, List.all_eq_true, Bool.or_eq_true, bne_iff_ne] at h
-  obtain ⟨⟨⟨h1, h2⟩, h3⟩, h4⟩ := h
-  refine ⟨h1, h2, h3, ?_⟩
-  intro e1 he1 e2 he2 heq
-  rcases h4 e1 he1 e2 he2 with h | h
-  · exact absurd heq h
-  · exact h
+  simp only [envOK, Bool.and_eq_true, beq_iff_eq, List.all_eq_true] at h
+  exact ⟨h.1.1, h.1.2, h.2⟩
 
 /-- the invariant of a prefix-URI map (`d` is the user's default namespace, if any) -/
 structure MapOK (env : NsEnv) (d : Option Str) (M : NsMap) : Prop where
   nodup : NoDupKeys M
-  fresh : ∀ k, M.length ≤ k → dget M (some (nsLit ++ natStr k)) = none
-  enumc : ∀ e ∈ env.enum, ∀ u, dget M (some e.2) = some u → u = e.1
   decl : ∀ e ∈ M, declOK e = true
   dflt : ∀ u, dget M none = some u → u = [] ∨ some u = d
   nodflt : ∀ s u, dget M (some s) = some u → dget M none ≠ some u
@@ -56,15 +48,136 @@ theorem prefixExists_false (u : Str) (M : NsMap) (h : prefixExists u M = false) 
     exact ⟨e, he, heq⟩
   rw [h] at this; cases this
 
-theorem isPrefixOf_nsK (k : Nat) : nsLit.isPrefixOf (nsLit ++ natStr k) = true := by
-  simp [nsLit, List.isPrefixOf]
-
 theorem getEnum_some (env : NsEnv) (u p : Str) (h : getEnum env u = some p) : (u, p) ∈ env.enum ∧ u ≠ [] := by
   unfold getEnum at h
   by_cases hu : u.isEmpty = true
   · simp [hu] at h
   · simp [hu] at h
     exact ⟨dget_some_mem _ _ _ h, by intro e; subst e; simp at hu⟩
+
+/-! ### the `while prefix in ns_map` loop terminates with a fresh prefix -/
+
+/-- key is `ns<k>` with `k ≥ n` -/
+def isNsGe (n : Nat) (e : Pfx × Str) : Bool :=
+  match e.1 with
+  | some s => s == nsLit ++ natStr (valOf (s.drop 2)) && decide (n ≤ valOf (s.drop 2))
+  | none => false
+
+theorem isNsGe_nsK (n k : Nat) (u : Str) : isNsGe n (some (nsLit ++ natStr k), u) = decide (n ≤ k) := by
+  have hd : (nsLit ++ natStr k).drop 2 = natStr k := by simp [nsLit]
+  simp [isNsGe, hd, valOf_natStr]
+
+theorem filter_length_lt {α : Type} (p q : α → Bool) (l : List α) (hpq : ∀ x, p x = true → q x = true)
+    (hw : ∃ x ∈ l, q x = true ∧ p x = false) : (l.filter p).length < (l.filter q).length := by
+  induction l with
+  | nil => obtain ⟨x, hx, _⟩ := hw; cases hx
+  | cons a r ih =>
+    have hle : ∀ (l' : List α), (l'.filter p).length ≤ (l'.filter q).length := by
+      intro l'
+      induction l' with
+      | nil => simp
+      | cons b t iht =>
+        simp only [List.filter_cons]
+        by_cases hp : p b = true
+        · simp [hp, hpq b hp]; exact iht
+        · by_cases hq : q b = true
+          · simp [hp, hq]; omega
+          · simp [hp, hq]; exact iht
+    obtain ⟨x, hx, hqx, hpx⟩ := hw
+    simp only [List.filter_cons]
+    rcases List.mem_cons.mp hx with rfl | hm
+    · simp [hqx, hpx]
+      have := hle r
+      omega
+    · have := ih ⟨x, hm, hqx, hpx⟩
+      by_cases hp : p a = true
+      · simp [hp, hpq a hp]; exact this
+      · by_cases hq : q a = true
+        · simp [hp, hq]; omega
+        · simp [hp, hq]; exact this
+
+/-- the loop returns some `ns<k>` that is not a key — whenever the fuel exceeds the
+number of keys `ns<j>`, `j ≥ number` -/
+theorem genLoop_spec (M : NsMap) : ∀ (fuel n : Nat), (M.filter (isNsGe n)).length < fuel →
+    ∃ k, n ≤ k ∧ genLoop M fuel n = nsLit ++ natStr k ∧ dget M (some (nsLit ++ natStr k)) = none := by
+  intro fuel
+  induction fuel with
+  | zero => intro n h; omega
+  | succ f ih =>
+    intro n h
+    simp only [genLoop]
+    by_cases hh : dhas M (some (nsLit ++ natStr n)) = true
+    · simp only [hh, if_true]
+      have hw : ∃ x ∈ M, isNsGe n x = true ∧ isNsGe (n + 1) x = false := by
+        simp only [dhas, Option.isSome_iff_exists] at hh
+        obtain ⟨u, hu⟩ := hh
+        refine ⟨(some (nsLit ++ natStr n), u), dget_some_mem _ _ _ hu, ?_, ?_⟩
+        · rw [isNsGe_nsK]; simp
+        · rw [isNsGe_nsK]; simp
+      have hlt := filter_length_lt (isNsGe (n + 1)) (isNsGe n) M (by
+        intro x hx
+        unfold isNsGe at hx ⊢
+        cases h1 : x.1 with
+        | none => rw [h1] at hx; cases hx
+        | some s =>
+          rw [h1] at hx
+          simp only [Bool.and_eq_true, decide_eq_true_eq] at hx ⊢
+          exact ⟨hx.1, by omega⟩) hw
+      obtain ⟨k, hk, h1, h2⟩ := ih (n + 1) (by omega)
+      exact ⟨k, by omega, h1, h2⟩
+    · simp only [hh, Bool.false_eq_true, if_false]
+      refine ⟨n, Nat.le_refl _, rfl, ?_⟩
+      simp only [dhas, Option.isSome_iff_exists, not_exists] at hh
+      cases hg : dget M (some (nsLit ++ natStr n)) with
+      | none => rfl
+      | some v => exact absurd hg (hh v)
+
+/-- the fuel `generate_prefix` starts with is never exhausted -/
+theorem genLoop_fresh (M : NsMap) :
+    ∃ k, genLoop M (M.length + 1) M.length = nsLit ++ natStr k ∧ dget M (some (nsLit ++ natStr k)) = none := by
+  have hlen : (M.filter (isNsGe M.length)).length < M.length + 1 := by
+    have := List.length_filter_le (isNsGe M.length) M
+    omega
+  obtain ⟨k, _, h1, h2⟩ := genLoop_spec M (M.length + 1) M.length hlen
+  exact ⟨k, h1, h2⟩
+
+/-- **every map**: `generate_prefix` binds a key that was not in the map, so it
+appends exactly one entry and no binding is lost -/
+theorem generatePrefix_appends (env : NsEnv) (u : Str) (M : NsMap) :
+    dget M (some (generatePrefix env u M).1) = none
+    ∧ (generatePrefix env u M).2 = M ++ [(some (generatePrefix env u M).1, u)] := by
+  have hfresh : dget M (some (generatePrefix env u M).1) = none := by
+    unfold generatePrefix
+    simp only []
+    obtain ⟨k, hk1, hk2⟩ := genLoop_fresh M
+    cases hg : getEnum env u with
+    | none => simp only []; rw [hk1]; exact hk2
+    | some p =>
+      simp only []
+      by_cases hh : dhas M (some p) = true
+      · simp only [hh, if_true]; rw [hk1]; exact hk2
+      · simp only [hh, Bool.false_eq_true, if_false]
+        simp only [dhas, Option.isSome_iff_exists, not_exists] at hh
+        cases hd : dget M (some p) with
+        | none => rfl
+        | some v => exact absurd hd (hh v)
+  refine ⟨hfresh, ?_⟩
+  have : (generatePrefix env u M).2 = dset M (some (generatePrefix env u M).1) u := rfl
+  rw [this, dset_absent M _ u hfresh]
+
+/-- the generated prefix is the standard one or some `ns<k>` -/
+theorem generatePrefix_shape (env : NsEnv) (u : Str) (M : NsMap) :
+    getEnum env u = some (generatePrefix env u M).1 ∨ ∃ k, (generatePrefix env u M).1 = nsLit ++ natStr k := by
+  unfold generatePrefix
+  simp only []
+  obtain ⟨k, hk1, _⟩ := genLoop_fresh M
+  cases hg : getEnum env u with
+  | none => exact Or.inr ⟨k, hk1⟩
+  | some p =>
+    simp only []
+    by_cases hh : dhas M (some p) = true
+    · simp only [hh, if_true]; exact Or.inr ⟨k, hk1⟩
+    · rw [if_neg hh]; exact Or.inl rfl
 
 /-- `generate_prefix` on a URI without prefix appends one fresh entry and keeps the invariant -/
 theorem generatePrefix_ok (env : NsEnv) (henv : EnvOK env) (d : Option Str) (u : Str) (M : NsMap)
@@ -77,81 +190,53 @@ theorem generatePrefix_ok (env : NsEnv) (henv : EnvOK env) (d : Option Str) (u :
     simp only [uriOK, Bool.and_eq_true, Bool.not_eq_true', bne_iff_ne, ne_eq] at hu
     refine ⟨?_, hu.1.2, hu.2⟩
     intro e; subst e; simp at hu
-  -- the chosen prefix p and its properties
-  have hp : ∃ p, (generatePrefix env u M).1 = p ∧ (generatePrefix env u M).2 = dset M (some p) u
-      ∧ dget M (some p) = none
-      ∧ (∀ k, M.length + 1 ≤ k → p ≠ nsLit ++ natStr k)
-      ∧ (∀ e ∈ env.enum, e.2 = p → e.1 = u)
-      ∧ declOK (some p, u) = true := by
-    unfold generatePrefix
-    cases hg : getEnum env u with
-    | some p =>
-      obtain ⟨hmem, _⟩ := getEnum_some env u p hg
+  obtain ⟨hfreshp, happ⟩ := generatePrefix_appends env u M
+  generalize hpdef : (generatePrefix env u M).1 = p at hfreshp happ
+  have huempty : u.isEmpty = false := by
+    cases u with
+    | nil => exact absurd rfl huri.1
+    | cons _ _ => rfl
+  -- the new declaration is legal
+  have hdecl : declOK (some p, u) = true := by
+    rcases generatePrefix_shape env u M with hs | ⟨k, hk⟩
+    · rw [hpdef] at hs
+      obtain ⟨hmem, _⟩ := getEnum_some env u p hs
       have hent := henv.entries (u, p) hmem
-      simp only [enumEntryOK, Bool.and_eq_true, bne_iff_ne, ne_eq, Bool.not_eq_true', beq_iff_eq] at hent
-      obtain ⟨⟨⟨⟨hnc, hnx⟩, hnotns⟩, _⟩, hxml⟩ := hent
-      refine ⟨p, rfl, rfl, ?_, ?_, ?_, ?_⟩
-      · cases hget : dget M (some p) with
-        | none => rfl
-        | some u' =>
-          have := hM.enumc (u, p) hmem u' hget
-          subst this
-          exact absurd rfl (hvals (some p, u') (dget_some_mem _ _ _ hget))
-      · intro k _ e
-        subst e
-        rw [isPrefixOf_nsK] at hnotns; cases hnotns
-      · intro e he hep
-        exact henv.inj e he (u, p) hmem hep
-      · simp only [declOK, Bool.and_eq_true, bne_iff_ne, ne_eq, Bool.not_eq_true', beq_iff_eq]
-        refine ⟨⟨⟨⟨⟨hnc, hnx⟩, ?_⟩, huri.2.1⟩, huri.2.2⟩, hxml⟩
-        cases u with
-        | nil => exact absurd rfl huri.1
-        | cons _ _ => rfl
-    | none =>
-      refine ⟨nsLit ++ natStr M.length, rfl, rfl, hM.fresh _ (Nat.le_refl _), ?_, ?_, ?_⟩
-      · intro k hk e
-        have := nsK_injective _ _ e
-        omega
-      · intro e he hep
-        have hent := henv.entries e he
-        simp only [enumEntryOK, Bool.and_eq_true, bne_iff_ne, ne_eq, Bool.not_eq_true', beq_iff_eq] at hent
-        rw [hep, isPrefixOf_nsK] at hent
-        exact absurd hent.1.1.2 (by simp)
-      · have hux : u ≠ xmlNsUri := by
-          intro e; subst e
-          unfold getEnum at hg
-          rw [henv.xmlEnum] at hg
-          simp [xmlNsUri] at hg
-        simp only [declOK, Bool.and_eq_true, bne_iff_ne, ne_eq, Bool.not_eq_true', beq_iff_eq]
-        refine ⟨⟨⟨⟨⟨nsK_isNCName _, nsK_ne_xmlns _⟩, ?_⟩, huri.2.1⟩, huri.2.2⟩, ?_⟩
-        · cases u with
-          | nil => exact absurd rfl huri.1
-          | cons _ _ => rfl
-        · have h1 : (nsLit ++ natStr M.length == xmlPrefix) = false := by
-            simp [nsLit, xmlPrefix]
-          have h2 : (u == xmlNsUri) = false := by simpa using hux
-          rw [h1, h2]
-  obtain ⟨p, hp1, hp2, hfreshp, hnotlater, henump, hdecl⟩ := hp
-  rw [hp1, hp2, dset_absent M (some p) u hfreshp]
+      simp only [enumEntryOK, Bool.and_eq_true, bne_iff_ne, ne_eq, beq_iff_eq] at hent
+      obtain ⟨⟨⟨hnc, hnx⟩, _⟩, hxml⟩ := hent
+      simp only [declOK, Bool.and_eq_true, bne_iff_ne, ne_eq, Bool.not_eq_true', beq_iff_eq]
+      exact ⟨⟨⟨⟨⟨hnc, hnx⟩, huempty⟩, huri.2.1⟩, huri.2.2⟩, hxml⟩
+    · rw [hpdef] at hk
+      subst hk
+      -- `u` is not the XML namespace: its standard prefix `xml` would be free
+      have hux : u ≠ xmlNsUri := by
+        intro e; subst e
+        have hget : getEnum env xmlNsUri = some xmlPrefix := by
+          unfold getEnum; rw [henv.xmlEnum]; simp [xmlNsUri]
+        have hxfree : dhas M (some xmlPrefix) = false := by
+          cases hd : dget M (some xmlPrefix) with
+          | none => simp [dhas, hd]
+          | some v =>
+            have hdv := hM.decl (some xmlPrefix, v) (dget_some_mem _ _ _ hd)
+            simp only [declOK, Bool.and_eq_true, beq_iff_eq] at hdv
+            have : v = xmlNsUri := by
+              have h2 := hdv.2
+              simp at h2
+              exact h2
+            exact absurd this (hvals (some xmlPrefix, v) (dget_some_mem _ _ _ hd))
+        have : (generatePrefix env xmlNsUri M).1 = xmlPrefix := by
+          unfold generatePrefix
+          simp only [hget, hxfree, Bool.false_eq_true, if_false]
+        rw [hpdef] at this
+        exact nsK_ne_xml k this
+      simp only [declOK, Bool.and_eq_true, bne_iff_ne, ne_eq, Bool.not_eq_true', beq_iff_eq]
+      refine ⟨⟨⟨⟨⟨nsK_isNCName _, nsK_ne_xmlns _⟩, huempty⟩, huri.2.1⟩, huri.2.2⟩, ?_⟩
+      have h1 : (nsLit ++ natStr k == xmlPrefix) = false := by simp [nsLit, xmlPrefix]
+      have h2 : (u == xmlNsUri) = false := by simpa using hux
+      rw [h1, h2]
+  rw [happ]
   refine ⟨rfl, ?_, hfreshp⟩
-  refine ⟨NoDupKeys_append_single M _ _ hM.nodup hfreshp, ?_, ?_, ?_, ?_, ?_⟩
-  · intro k hk
-    simp only [List.length_append, List.length_cons, List.length_nil] at hk
-    rw [dget_append_right _ _ _ (hM.fresh k (by omega))]
-    have : p ≠ nsLit ++ natStr k := hnotlater k (by omega)
-    simp [dget, this]
-  · intro e he u' hget
-    rw [dget_append] at hget
-    cases hm : dget M (some e.2) with
-    | some v => rw [hm] at hget; cases hget; exact hM.enumc e he _ hm
-    | none =>
-      rw [hm] at hget
-      simp only [dget] at hget
-      by_cases hpe : some p = some e.2
-      · simp [hpe] at hget
-        subst hget
-        exact (henump e he (by cases hpe; rfl)).symm
-      · simp [hpe] at hget
+  refine ⟨NoDupKeys_append_single M _ _ hM.nodup hfreshp, ?_, ?_, ?_⟩
   · intro e he
     rcases List.mem_append.mp he with h | h
     · exact hM.decl e h
@@ -177,11 +262,6 @@ theorem generatePrefix_ok (env : NsEnv) (henv : EnvOK env) (d : Option Str) (u :
         subst h
         exact hvals (none, _) (dget_some_mem _ _ _ hn) rfl
       · simp [hps] at h
-
-end Proofs.MapInv
-
-namespace Proofs.MapInv
-open Py Xs.Ns Xs.Sax Spec.XmlNs Spec.Hyps
 
 theorem findPrefix_some (u : Str) (M : NsMap) (p : Pfx) (h : findPrefix u M = some p) : (p, u) ∈ M := by
   induction M with
